@@ -1811,6 +1811,18 @@ func c3Mutants(rng *rand.Rand, pr *c3Prog) []c3Mut {
 			res = append(res, c3Mut{pr, m, "ins", s, i, isBr(s)})
 		}
 	}
+	// substitution: one token replaced by another one (a wrong keyword where then/else/catch belongs, a
+	// wrong closing bracket, an operator where an operand belongs)
+	for i := 0; i < L; i++ {
+		for _, s := range set {
+			if s == pr.toks[i] {
+				continue
+			}
+			m := append([]c3Tok(nil), pr.toks...)
+			m[i] = s
+			res = append(res, c3Mut{pr, m, "sub", s, i, false})
+		}
+	}
 	return res
 }
 
@@ -2245,7 +2257,7 @@ func runC03(c *Ctx) {
 	c.extra["wall_valid_stream_s"] = time.Since(t0).Seconds()
 	t1 := time.Now()
 	budget := time.Duration(c.Pick(45, 400)) * time.Second
-	h.malformed(c.Pick(60000, 1000000), t1.Add(budget))
+	h.malformed(c.Pick(100000, 1500000), t1.Add(budget))
 	h.flush()
 	c.extra["wall_malformed_stream_s"] = time.Since(t1).Seconds()
 	t2 := time.Now()
